@@ -4,11 +4,11 @@
 // body is an iterator/sort/HashSet/retain pipeline that neither Verus nor CBMC (hashbrown) can take.
 #![allow(dead_code, unused_imports, unused_variables, unused_macros)]
 // tracing macros (shim: logging has no bearing on the property)
-macro_rules! trace { ($($t:tt)*) => {}; }
-macro_rules! debug { ($($t:tt)*) => {}; }
-macro_rules! info { ($($t:tt)*) => {}; }
-macro_rules! warn { ($($t:tt)*) => {}; }
-macro_rules! error { ($($t:tt)*) => {}; }
+macro_rules! trace { ($($t:tt)*) => { () }; }
+macro_rules! debug { ($($t:tt)*) => { () }; }
+macro_rules! info { ($($t:tt)*) => { () }; }
+macro_rules! warn { ($($t:tt)*) => { () }; }
+macro_rules! error { ($($t:tt)*) => { () }; }
 use std::collections::{HashMap, HashSet};
 use std::time::{Duration, Instant};
 // shim: rustc_hash::FxHashMap is std's HashMap with another hasher
